@@ -82,6 +82,9 @@ FILES = {
     # id: (format, [(number, body)])
     'A1': ('A', [(10, ('p', b'fa')), (15, ('g', 30)), (65529, ('r', b'f one'))]),
     'A2': ('A', [(20, ('p', b'fb')), (1, ('r', b'two'))]),          # not in ascending order in the file
+    # a line number followed by blanks only deletes the line (here: lines the file itself has just stored)
+    'A4': ('A', [(25, ('p', b'fd')), (12, ('p', b'fe')), (25, ('ws', b'  ')), (12, ('ws', b'\t'))]),
+    'a4': ('A', [(20, ('p', b'fd')), (30, ('p', b'fe')), (20, ('ws', b'   '))]),
     'T3': ('B', [(5, ('p', b'fc')), (30, ('g', 5))]),
     # closure alphabet
     'a1': ('A', [(20, ('p', b'm')), (30, ('g', 10))]),
@@ -104,6 +107,7 @@ def _ops_big():
             ops.append(('line', n, shape))
     for n in nums:
         ops.append(('empty', n))
+    ops += [('empty', 10, b'  '), ('empty', 20, b'\t'), ('empty', 0, b' '), ('empty', 65529, b' \t ')]
     ops += [('del', 10, 10), ('del', 10, 20), ('del', None, 10), ('del', 20, None),
             ('del', 2, 9), ('del', 0, 65529),
             # line number 0 given explicitly (falsy in Python: must not be read as 'omitted')
@@ -111,7 +115,7 @@ def _ops_big():
     ops += [('renum', None, None, None), ('renum', 100, 20, 5), ('renum', 65520, 30, 5),
             ('renum', 1, 10, 1), ('renum', 0, None, None), ('renum', 0, 0, 5)]
     ops += [('new',), ('merge', 'A1'), ('merge', 'A2'), ('load', 'A1'), ('load', 'T3'),
-            ('merge', 'T3')]
+            ('merge', 'T3'), ('merge', 'A4'), ('load', 'A4')]
     return ops
 
 
@@ -122,9 +126,10 @@ def _ops_small():
         ops.append(('line', n, 'g10'))
         ops.append(('empty', n))
     ops.append(('line', 20, 'r'))
+    ops += [('empty', 20, b'  '), ('empty', 10, b'\t')]
     ops += [('del', 10, 20), ('del', 20, None), ('del', 15, 15), ('del', None, 10)]
     ops += [('renum', None, None, None), ('renum', 20, 20, 10), ('renum', 30, 20, None)]
-    ops += [('new',), ('merge', 'a1'), ('load', 't2'), ('load', 'a1')]
+    ops += [('new',), ('merge', 'a1'), ('load', 't2'), ('load', 'a1'), ('merge', 'a4')]
     return ops
 
 
@@ -160,7 +165,8 @@ def op_command(op):
             text = text.replace(b'0 ', b'0', 1)
         return text
     if kind == 'empty':
-        return b'%d' % op[1]
+        # optionally followed by blanks only
+        return b'%d' % op[1] + (op[2] if len(op) > 2 else b'')
     if kind == 'del':
         lo, hi = op[1], op[2]
         if lo is not None and lo == hi:
